@@ -166,7 +166,13 @@ func checkCondProtocol(r *Reporter, p *Prog, pkg string, conds []condInfo, minWa
 			case !inLoop:
 				r.Fail("cond/wait-in-loop-under-locker", key, p.posStr(c.Pos()), "Wait is not inside a for loop that re-tests the predicate: a spurious or stale wake-up proceeds without the condition holding")
 			case held[bp+"."+ci.Locker] < ModeW:
-				r.Fail("cond/wait-in-loop-under-locker", key, p.posStr(c.Pos()), fmt.Sprintf("Wait without holding the Cond's Locker %s exclusively (held %s)", ci.Locker, held))
+				// an unexported helper that is only ever called with the Locker held (the wait loop
+				// extracted from the locking method) is fine: the obligation is on its call sites
+				if why, ok := callersHold(p, pkg, fd, ci.Locker); ok {
+					r.Pass("cond/wait-in-loop-under-locker", key, p.posStr(c.Pos()), "in a loop; the Locker "+ci.Locker+" is held at every call site of this helper ("+why+")")
+				} else {
+					r.Fail("cond/wait-in-loop-under-locker", key, p.posStr(c.Pos()), fmt.Sprintf("Wait without holding the Cond's Locker %s exclusively (held %s; %s)", ci.Locker, held, why))
+				}
 			default:
 				pred := "<none>"
 				if loopCond != nil {
@@ -180,8 +186,14 @@ func checkCondProtocol(r *Reporter, p *Prog, pkg string, conds []condInfo, minWa
 			body     *ast.BlockStmt
 			deferred bool
 			outer    *ast.BlockStmt
+			// a deferred helper METHOD: the helper's receiver path and the receiver expression's
+			// path at the defer statement (the same object seen from the two functions)
+			helperRecv, callerRecv string
 		}
-		units := []unit{{fd.Body, false, nil}}
+		units := []unit{{fd.Body, false, nil, "", ""}}
+		if deferredOnlyHelper(p, pkg, fd) {
+			units = nil // its signals are judged at the defer statements that run it
+		}
 		var stack []ast.Node
 		ast.Inspect(fd.Body, func(n ast.Node) bool {
 			if n == nil {
@@ -198,7 +210,20 @@ func checkCondProtocol(r *Reporter, p *Prog, pkg string, conds []condInfo, minWa
 						}
 					}
 				}
-				units = append(units, unit{lit.Body, deferred, fd.Body})
+				units = append(units, unit{lit.Body, deferred, fd.Body, "", ""})
+			}
+			if ds, ok := n.(*ast.DeferStmt); ok {
+				if se, ok := ast.Unparen(ds.Call.Fun).(*ast.SelectorExpr); ok {
+					if fn, _ := info.Uses[se.Sel].(*types.Func); fn != nil {
+						if hd := p.decls().byFunc[fn.Origin()]; hd != nil && hd.Recv != nil && !hd.Name.IsExported() && p.decls().infoOf[hd] == info && deferredOnlyHelper(p, pkg, hd) {
+							if ro := recvObj(info, hd); ro != nil {
+								if cp, okp := pathOf(info, se.X); okp {
+									units = append(units, unit{hd.Body, true, fd.Body, fmt.Sprintf("%s@%d", ro.Name(), ro.Pos()), cp})
+								}
+							}
+						}
+					}
+				}
 			}
 			return true
 		})
@@ -239,6 +264,10 @@ func checkCondProtocol(r *Reporter, p *Prog, pkg string, conds []condInfo, minWa
 					continue
 				}
 				lockerPath := bp + "." + ci.Locker
+				if u.helperRecv != "" && strings.HasPrefix(lockerPath, u.helperRecv) {
+					lockerPath = u.callerRecv + strings.TrimPrefix(lockerPath, u.helperRecv)
+					bp = u.callerRecv + strings.TrimPrefix(bp, u.helperRecv)
+				}
 				if heldAt[call][lockerPath] >= ModeR {
 					r.Pass("cond/signal-after-section", key, p.posStr(call.Pos()), "issued while holding "+ci.Locker)
 					continue
@@ -492,4 +521,142 @@ func checkCondBroadcast(r *Reporter, p *Prog, pkg string) {
 			r.Pass("cond/broadcast-when-waiters-differ", key, ws[0].pos, fmt.Sprintf("waiters differ (%s) and every wake-up is a Broadcast", strings.Join(plist, " / ")))
 		}
 	}
+}
+
+// callersHold: fd is an unexported method whose every use in the package is a direct call
+// x.fd(...) made while x.<locker> is held exclusively (transitively through further such
+// helpers, bounded). Returns a description of the call sites.
+func callersHold(p *Prog, pkg string, fd *ast.FuncDecl, locker string) (string, bool) {
+	return callersHoldDepth(p, pkg, fd, locker, 0)
+}
+
+func callersHoldDepth(p *Prog, pkg string, fd *ast.FuncDecl, locker string, depth int) (string, bool) {
+	if fd.Recv == nil || fd.Name.IsExported() || depth > 3 {
+		return "not an unexported method", false
+	}
+	info := p.Pkg(pkg).TypesInfo
+	target, _ := info.Defs[fd.Name].(*types.Func)
+	if target == nil {
+		return "method object not found", false
+	}
+	nCalls := 0
+	var sites []string
+	for _, caller := range p.AllFuncDecls(pkg) {
+		if caller.Body == nil || strings.HasSuffix(p.Fset.Position(caller.Pos()).Filename, "_test.go") {
+			continue
+		}
+		// any use that is not a direct call disqualifies
+		bad := ""
+		var calls []*ast.CallExpr
+		var stack []ast.Node
+		ast.Inspect(caller.Body, func(n ast.Node) bool {
+			if n == nil {
+				stack = stack[:len(stack)-1]
+				return true
+			}
+			stack = append(stack, n)
+			se, ok := n.(*ast.SelectorExpr)
+			if !ok {
+				return true
+			}
+			fn, _ := info.Uses[se.Sel].(*types.Func)
+			if fn == nil || fn.Origin() != target {
+				return true
+			}
+			if len(stack) >= 2 {
+				if c, ok := stack[len(stack)-2].(*ast.CallExpr); ok && ast.Unparen(c.Fun) == ast.Expr(se) {
+					if len(stack) >= 3 {
+						switch stack[len(stack)-3].(type) {
+						case *ast.GoStmt, *ast.DeferStmt:
+							bad = "started with go/defer at " + p.posStr(c.Pos())
+						}
+					}
+					calls = append(calls, c)
+					return true
+				}
+			}
+			bad = "used as a method value at " + p.posStr(se.Pos())
+			return true
+		})
+		if bad != "" {
+			return bad, false
+		}
+		if len(calls) == 0 {
+			continue
+		}
+		heldAt := map[*ast.CallExpr]LockSet{}
+		AnalyzeLocks(caller.Body, LockSet{}, &FlowOpts{Info: info}, func(n ast.Node, _ []ast.Node, held LockSet) {
+			if c, ok := n.(*ast.CallExpr); ok {
+				if _, seen := heldAt[c]; !seen {
+					heldAt[c] = held
+				}
+			}
+		})
+		for _, c := range calls {
+			nCalls++
+			se := ast.Unparen(c.Fun).(*ast.SelectorExpr)
+			base, ok := pathOf(info, se.X)
+			if !ok {
+				return "receiver of the call at " + p.posStr(c.Pos()) + " is not an access path", false
+			}
+			if heldAt[c][base+"."+locker] >= ModeW {
+				sites = append(sites, funcKey(pkg, caller))
+				continue
+			}
+			// the caller may itself be such a helper
+			if why, ok := callersHoldDepth(p, pkg, caller, locker, depth+1); ok && recvTypeName(caller) == recvTypeName(fd) {
+				sites = append(sites, funcKey(pkg, caller)+" <- "+why)
+				continue
+			}
+			return fmt.Sprintf("call at %s without %s held (held %s)", p.posStr(c.Pos()), locker, heldAt[c]), false
+		}
+	}
+	if nCalls == 0 {
+		return "no call site", false
+	}
+	return strings.Join(dedupe(sites), ", "), true
+}
+
+// deferredOnlyHelper: an unexported method whose every use in the package is `defer x.m(...)`.
+func deferredOnlyHelper(p *Prog, pkg string, fd *ast.FuncDecl) bool {
+	if fd.Recv == nil || fd.Name.IsExported() {
+		return false
+	}
+	info := p.Pkg(pkg).TypesInfo
+	target, _ := info.Defs[fd.Name].(*types.Func)
+	if target == nil {
+		return false
+	}
+	n, ok := 0, true
+	for _, caller := range p.AllFuncDecls(pkg) {
+		if caller.Body == nil {
+			continue
+		}
+		var stack []ast.Node
+		ast.Inspect(caller.Body, func(m ast.Node) bool {
+			if m == nil {
+				stack = stack[:len(stack)-1]
+				return true
+			}
+			stack = append(stack, m)
+			se, isSel := m.(*ast.SelectorExpr)
+			if !isSel {
+				return true
+			}
+			if fn, _ := info.Uses[se.Sel].(*types.Func); fn == nil || fn.Origin() != target {
+				return true
+			}
+			n++
+			if len(stack) >= 3 {
+				if c, isCall := stack[len(stack)-2].(*ast.CallExpr); isCall && ast.Unparen(c.Fun) == ast.Expr(se) {
+					if _, isDefer := stack[len(stack)-3].(*ast.DeferStmt); isDefer {
+						return true
+					}
+				}
+			}
+			ok = false
+			return true
+		})
+	}
+	return ok && n > 0
 }
